@@ -52,6 +52,8 @@ pub struct Pred {
     pub events: Vec<(usize, EvObs)>,
     pub done: Option<Tri>,
     pub resolve: Option<Expect>,
+    /// expected verdicts of the resolutions inside a `Batch`, in order (None for drops)
+    pub batch_resolve: Vec<Option<Expect>>,
     /// a task is stuck in the FuturesUnordered class (known finding for C07): the ideal
     /// semantics discards it, the implementation keeps it for ever
     pub fu_stuck: bool,
@@ -169,6 +171,8 @@ enum Tk {
         child: CmdId,
         map_event: Option<u8>,
         map_effect: Option<u8>,
+        /// drop-counted value captured by the mapping closure at build time
+        guard: Option<u32>,
     },
     ThenHost {
         first: CmdId,
@@ -275,6 +279,14 @@ impl Model {
     }
 
     fn host_child(&mut self, cmd: CmdId, child_ast: &Cmd, me: Option<u8>, mf: Option<u8>) {
+        self.host_child_guarded(cmd, child_ast, me, mf, None)
+    }
+
+    fn host_child_guarded(&mut self, cmd: CmdId, child_ast: &Cmd, me: Option<u8>, mf: Option<u8>, guard: Option<u32>) {
+        if let Some(g) = guard {
+            // the value exists from build time on
+            self.holds.entry(g).or_insert((0, 0)).0 += 1;
+        }
         // reserve the host task first so that the child can point at it
         let host = self.new_task(
             cmd,
@@ -282,6 +294,7 @@ impl Model {
                 child: usize::MAX,
                 map_event: me,
                 map_effect: mf,
+                guard,
             },
         );
         let child = self.instantiate(child_ast, Some(host));
@@ -365,6 +378,11 @@ impl Model {
                 // four identity-mapping layers; one is enough for the model
                 let c = self.new_cmd(parent);
                 self.host_child(c, inner, None, None);
+                c
+            }
+            Cmd::Guarded(inner, counter) => {
+                let c = self.new_cmd(parent);
+                self.host_child_guarded(c, inner, None, None, Some(*counter));
                 c
             }
             Cmd::Abortable(inner, h) => {
@@ -452,6 +470,21 @@ impl Model {
     }
 
     pub fn act(&mut self, action: &Action) -> Pred {
+        if let Action::Batch(subs) = action {
+            // sequential application with everything in between settled: the generator only
+            // emits batches whose members commute, so this equals "all at once"
+            let mut merged = Pred::default();
+            for s in subs {
+                let p = self.act(s);
+                merged.effects.extend(p.effects);
+                merged.events.extend(p.events);
+                merged.batch_resolve.push(p.resolve);
+                merged.done = p.done;
+                merged.fu_stuck = p.fu_stuck;
+                merged.live_root_tasks = p.live_root_tasks;
+            }
+            return merged;
+        }
         self.begin_step();
         let mut expect = None;
         match action {
@@ -462,6 +495,7 @@ impl Model {
             Action::Abort { handle } => self.abort(*handle),
             Action::Noop => {}
             Action::Extend(c) => self.extend(c),
+            Action::Batch(_) => unreachable!(),
         }
         self.settle();
         self.end_step(expect)
@@ -541,6 +575,7 @@ impl Model {
             events: std::mem::take(&mut self.ev_out),
             done,
             resolve,
+            batch_resolve: vec![],
             fu_stuck,
             live_root_tasks,
         }
@@ -647,6 +682,7 @@ impl Model {
                 child,
                 map_event,
                 map_effect,
+                guard,
             } => {
                 self.start_cmd(child);
                 let fin = self.cmds[child].done;
@@ -655,6 +691,7 @@ impl Model {
                         child,
                         map_event,
                         map_effect,
+                        guard,
                     },
                     fin,
                 )
@@ -724,10 +761,18 @@ impl Model {
                 r.receiver_alive = false;
             }
         }
-        if let Tk::Script(st) = &mut self.tasks[t].kind {
-            for h in st.holds.drain(..) {
-                self.holds.entry(h).or_insert((0, 0)).1 += 1;
+        match &mut self.tasks[t].kind {
+            Tk::Script(st) => {
+                for h in st.holds.drain(..) {
+                    self.holds.entry(h).or_insert((0, 0)).1 += 1;
+                }
             }
+            Tk::Host { guard, .. } => {
+                if let Some(g) = guard.take() {
+                    self.holds.entry(g).or_insert((0, 0)).1 += 1;
+                }
+            }
+            _ => {}
         }
     }
 
